@@ -22,7 +22,7 @@ EXPLANATION = (
     "the reader's call graph), every loop exits in the abstract state 'stream exhausted' (an abstract execution in which every read "
     "returns '' has no cycle in its state graph), and no recursion between stream readers re-enters before a character was consumed."
 )
-DECIDES = "only syntax errors escape (may-raise over the reader's call graph), EOF sentinel never embedded and reported as UnexpectedEOFError, dispatch/assert agreement, span start of located readers, REPL cue, termination of the reader's loops and recursion (progress + exit at end of input)"
+DECIDES = "only syntax errors escape (may-raise over the reader's call graph), EOF sentinel never embedded and reported as UnexpectedEOFError, dispatch/assert agreement, span start of located readers, REPL cue, termination of the reader's loops and recursion (progress + exit at end of input), a private end-of-input sentinel, input validated with syntax errors (asserts, data readers, indexed forms, comment filter, var form), end of input classified as such (abstract execution with 0/1/2 characters left; eof_error only under end-of-input tests)"
 DECLINED = "line/column arithmetic under CR/CRLF and multi-byte input, equality of the re-read span (runtime values)"
 TRUSTED = ["FT-raise: exception classes of int/float/chr/Decimal/Fraction/re.compile/uuid/set on bad input, incl. the 4300-digit int() limit for non power-of-two bases"]
 ASSUMPTIONS = ["user-supplied data readers and resolvers are outside the property (their exceptions are theirs)"]
